@@ -1,22 +1,194 @@
-(* C15 - no public operation panics. MODEL-LEVEL HALF ONLY (see DESIGN.md section 10/C15 and section 11).
-   A theorem about the model cannot exhibit a panic of Rust code that the model does not transcribe; absence of panics in the
-   crate is explored by the harness (every public entry point under catch_unwind, debug-assertion and release builds, API
-   registry), not proved. What is proved here is that the specification the implementation is judged against is total: for
-   every operand tuple the set of accepted outcomes is non-empty, so the specification never leaves an input undefined and
-   "no answer" is never a conforming behaviour. (_partial: the 18 round-and-pack based operations and fma; a package
-   extending this to every operation of Judge.expected replaces this file when merged.) *)
+(* C15 - no public operation panics for any operand bits, mode, integer or string.
+
+   THIS FILE IS THE MODEL-LEVEL HALF ONLY. The property speaks about the Rust code ("every public function returns
+   normally ... never by unwinding or aborting"). A theorem about the model cannot show that; the implementation-level
+   half - absence of panics in the crate - is NOT PROVED. It is explored: the harness calls every public entry point
+   (API registry check: no entry is left out) under catch_unwind, in a debug-assertion build and in a release build,
+   with the datum generator in every operand position, all modes, integer extremes, status words and the string streams;
+   the driver reports a PANIC line as a finding before the acceptance test is even consulted (ocaml/driver.ml), whatever
+   the expectation is. Evidence level of C15 as a whole: exploration, plus the model-level theorems below.
+
+   What is proved here (all axiom-free, theories/TotalityProofs.v) is that the SPECIFICATION the implementation is judged
+   against - [expected o md args] of theories/Judge.v with the acceptance test [judge] / its status-free form [acc]
+   (theories/Status.v) - is total and demands a normal return with a value:
+
+   - C15_spec_total: for every operation and every argument list of the right shape ([shape_ok]: the right number of
+     arguments; operand words in [0, 2^128); any integer for scaleb's exponent, for from-integer and from-binary sources;
+     predicate index 0..19 for the comparisons; any byte list for the three string entry points; any list of operand words
+     for sum and product - no length bound, by induction over the list) some (returned values, raised flags) pair is
+     accepted OUTRIGHT (verdict 1, not merely as a recorded known finding). So the specification never asks the
+     impossible and leaves no input undefined: NaN, Err, indefinite integer + invalid are ordinary accepted results.
+     C15_spec_total_judge: the same through [judge], from every entry status word.
+     C15_spec_total_any_bits is the stronger form actually proved: only the number of arguments matters ([defined_op]);
+     operand words, widths and indices may be any integers.
+   - C15_domain_exact: [defined_op] is exactly the domain: outside it [expected] is the empty list (operations the
+     dispatcher does not define: OSerde, OConsts, OOpArith of a non-arithmetic operation, wrong argument count), which
+     nothing satisfies. Nothing was left out of [shape_ok] for being too expensive; every operation
+     constructor that the line protocol can produce (ocaml/ops_table.ml) is covered (C15_protocol_ops_covered;
+     [shape_ok] does not look at the parameters w, signed, mode, xflag of the conversions).
+   - C15_no_answer_rejected(_judge): an empty list of returned values - the observable form of "the call did not
+     return" - is never accepted, neither outright nor as a known finding; C15_exact_outcomes_have_values: every outcome
+     listed by a list expectation carries at least one value.
+     EXCEPTION, stated exactly (C15_unconstrained_cases, C15_unconstrained_accept_anything): frexp of a zero, an infinity
+     or a NaN, and quantum of a NaN. There DESIGN 10/C09, 10/C11 and section 14 leave the result open ("only no panic is
+     required") and the model's predicate is [any_out], which accepts every output list INCLUDING the empty one; for
+     these inputs the acceptance test alone does not demand a returned value (the driver's PANIC report does not depend
+     on it). This is a remark about the model, not a weakening made here: for all other (operation, arguments) the
+     theorem is unconditional.
+   - C15_deterministic_where_stated / C15_accepted_unique: whenever the expectation is a list, the operation is not
+     min/max, sum or product, and at most one operand is a NaN, the list has exactly one element, so exactly one
+     (values, flags) behaviour is accepted. (With two NaN operands, equal-valued min/max operands, or NaN choices inside
+     a sum several outcomes are accepted on purpose: C15_two_choices_*.)
+
+   Not covered: anything about the Rust code (see above); that the accepted behaviours are the RIGHT ones is the subject
+   of the other properties. *)
 From Coq Require Import ZArith Bool List.
-From DV Require Import Base Bid Arith OpsArith OpsCmp OpsMisc ResultProofs FmaProofs.
+From DV Require Import Base Bid Arith OpsArith OpsCmp OpsMisc OpsConv OpsStr Judge Status TotalityProofs.
 Import ListNotations.
 Open Scope Z_scope.
 
-Theorem C15_spec_total_partial : forall md k si n x y z, 0 <= x < P128 -> 0 <= y < P128 -> 0 <= z < P128 ->
-  m_add md x y <> [] /\ m_sub md x y <> [] /\ m_mul md x y <> [] /\ m_div md x y <> [] /\ m_sqrt md x <> [] /\
-  m_fma md x y z <> [] /\ m_quantize md x y <> [] /\ rem_dec true x y <> [] /\ rem_dec false x y <> [] /\
-  m_fdim md x y <> [] /\ rint_dec md si x <> [] /\ m_modf x <> [] /\ m_next_up x <> [] /\ m_next_down x <> [] /\
-  m_next_after x y <> [] /\ m_minmax k x y <> [] /\ m_scaleb md x n <> [] /\ m_logb x <> [].
-Proof. exact outcomes_nonempty. Qed.
-Print Assumptions C15_spec_total_partial.
+Theorem C15_spec_total : forall o md args, shape_ok o args = true ->
+  exists outs fl, acc (expected o md args) outs fl = 1.
+Proof. exact spec_total. Qed.
+Print Assumptions C15_spec_total.
 
-Example C15_witness : m_div RNE (encode (Fin false 0 0)) (encode (Fin false 0 0)) = invalid_out.
+Theorem C15_spec_total_judge : forall o md args fin, shape_ok o args = true ->
+  exists outs fout, judge (expected o md args) fin outs fout = 1.
+Proof. exact spec_total_judge. Qed.
+Print Assumptions C15_spec_total_judge.
+
+Theorem C15_spec_total_any_bits : forall o md args, defined_op o args = true ->
+  exists outs fl, acc (expected o md args) outs fl = 1.
+Proof. exact spec_total_any_bits. Qed.
+Print Assumptions C15_spec_total_any_bits.
+
+Theorem C15_shape_ok_defined : forall o args, shape_ok o args = true -> defined_op o args = true.
+Proof. exact shape_ok_defined. Qed.
+Print Assumptions C15_shape_ok_defined.
+
+Theorem C15_domain_exact : forall o md args,
+  (defined_op o args = false -> expected o md args = Exact []) /\
+  (defined_op o args = true <-> exists outs fl, acc (expected o md args) outs fl = 1).
+Proof. intros o md args. split; [apply undefined_is_empty|apply defined_iff_satisfiable]. Qed.
+Print Assumptions C15_domain_exact.
+
+Theorem C15_no_answer_rejected : forall o md args, defined_op o args = true -> unconstrained o args = false ->
+  forall outs fl, acc (expected o md args) outs fl <> 0 -> outs <> [].
+Proof. exact no_answer_rejected. Qed.
+Print Assumptions C15_no_answer_rejected.
+
+Theorem C15_no_answer_rejected_judge : forall o md args, defined_op o args = true -> unconstrained o args = false ->
+  forall fin fout, judge (expected o md args) fin [] fout = 0.
+Proof. exact no_answer_rejected_judge. Qed.
+Print Assumptions C15_no_answer_rejected_judge.
+
+Theorem C15_exact_outcomes_have_values : forall o md args l, defined_op o args = true -> expected o md args = Exact l ->
+  l <> [] /\ forall oc, In oc l -> fst oc <> [].
+Proof. exact exact_outcomes_have_values. Qed.
+Print Assumptions C15_exact_outcomes_have_values.
+
+Theorem C15_unconstrained_cases : forall o args, unconstrained o args = true <->
+  exists x, args = [x] /\ ((o = OFrexp /\ forall s c q, decode x = Fin s c q -> c = 0) \/
+                           (o = OQuantum /\ is_nan (decode x) = true)).
+Proof. exact unconstrained_cases. Qed.
+Print Assumptions C15_unconstrained_cases.
+
+Theorem C15_unconstrained_accept_anything : forall o md args, unconstrained o args = true ->
+  expected o md args = Pred any_out [0] /\ acc (expected o md args) [] 0 = 1.
+Proof. intros o md args U. split; [apply unconstrained_spec, U|apply unconstrained_accepts_empty, U]. Qed.
+Print Assumptions C15_unconstrained_accept_anything.
+
+Theorem C15_deterministic_where_stated : forall o md args l,
+  det_op o = true -> defined_op o args = true ->
+  le1nan (map decode (nan_choice_operands o args)) = true ->
+  expected o md args = Exact l -> exists oc, l = [oc].
+Proof. exact spec_deterministic_where_stated. Qed.
+Print Assumptions C15_deterministic_where_stated.
+
+Theorem C15_accepted_unique : forall o md args l outs fl outs' fl',
+  det_op o = true -> defined_op o args = true ->
+  le1nan (map decode (nan_choice_operands o args)) = true ->
+  expected o md args = Exact l ->
+  acc (expected o md args) outs fl <> 0 -> acc (expected o md args) outs' fl' <> 0 -> outs = outs' /\ fl = fl'.
+Proof. exact accepted_unique_where_stated. Qed.
+Print Assumptions C15_accepted_unique.
+
+(* ---------- non-vacuity and illustrations ---------- *)
+Definition ex_zero := encode (Fin false 0 0).
+Definition ex_one := encode (Fin false 1 0).
+Definition ex_ten_m1 := encode (Fin false 10 (-1)).
+Definition ex_qnan1 := encode (NaN false false 1).
+Definition ex_qnan2 := encode (NaN false false 2).
+Definition ex_snan := encode (NaN true true 7).
+Definition ex_inf := encode (Inf true).
+
+(* every operation constructor the line protocol produces (ocaml/ops_table.ml; for the 40 to-integer names a
+   representative of each width) has the right shape with operands of the right count *)
+Example C15_protocol_ops_covered :
+  forallb (fun o => shape_ok o [ex_snan])
+    [OSqrt; ORint; ONearbyint; ORintFix RNE; ORintFix RNA; ORintFix RDN; ORintFix RUP; ORintFix RTZ; OModf; OFrexp;
+     ONextUp; ONextDown; OLogb; OIlogb; OQuantexp; OLlquantexp; OQuantum; OClass; OIsx; OAbs; ONeg; OCopy; OEncodeDpd;
+     ODecodeDpd; OFromBin 8 23 true; OFromBin 11 52 true; OFromBin 8 23 false; OFromBin 11 52 false;
+     OFromInt 32 true; OFromInt 32 false; OFromInt 64 true; OFromInt 64 false;
+     OToInt 32 true RNE false; OToInt 32 false RDN true; OToInt 64 true RUP false; OToInt 64 false RTZ true;
+     OToInt 64 true RNA true; OLrint; OLround; OFmt; OOpNeg] &&
+  forallb (fun o => shape_ok o [ex_snan; ex_inf])
+    [OAdd; OSub; OMul; ODiv; OQuantize; ORem; OFmod; OFdim; ONextAfter; OMinMax MinNum; OMinMax MaxNum; OMinMax MinMag;
+     OMinMax MaxMag; OScaleb 32; OScaleb 64; OSameQuantum; OTotalOrder; OTotalOrderMag; OCopySign; OOps; OHashEq;
+     OHashSet; OOpArith OAdd; OOpArith OSub; OOpArith OMul; OOpArith ODiv; OOpArith ORem] &&
+  shape_ok OFma [ex_snan; ex_inf; ex_zero] && shape_ok OCmp [ex_snan; ex_inf; 19] &&
+  shape_ok (OScaleb 32) [ex_one; -5] && shape_ok (OFromInt 64 true) [-1] &&
+  forallb (fun o => shape_ok o [49; 69; 50; 120; 255; 0]) [OParse; OFromStr; OFromStr2] &&
+  forallb (fun o => shape_ok o [] && shape_ok o [ex_snan; ex_inf; ex_zero; ex_qnan1; ex_one]) [OSum; OProduct] = true.
+Proof. vm_compute. reflexivity. Qed.
+
+(* ... and what the dispatcher does not define is outside the domain *)
+Example C15_outside_domain :
+  defined_op OSerde [ex_one] = false /\ defined_op OConsts [] = false /\ defined_op (OOpArith OSqrt) [ex_one; ex_one] = false /\
+  defined_op OAdd [ex_one] = false /\ shape_ok OAdd [ex_one; -1] = false /\ shape_ok OCmp [ex_one; ex_one; 20] = false.
+Proof. vm_compute. repeat split; reflexivity. Qed.
+
+(* the empty string: garbage, satisfied by the default quiet NaN with no flag; no value at all is rejected *)
+Example C15_parse_empty :
+  acc (expected OParse RNE []) [encode QNAN] 0 = 1 /\ acc (expected OParse RNE []) [] 0 = 0.
+Proof. vm_compute. split; reflexivity. Qed.
+
+(* 0/0: satisfied by the invalid-operation outcome, a quiet NaN with the invalid flag *)
+Example C15_div_zero_zero :
+  expected ODiv RNE [ex_zero; ex_zero] = Exact invalid_out /\
+  acc (expected ODiv RNE [ex_zero; ex_zero]) [encode QNAN] F_INV = 1 /\
+  acc (expected ODiv RNE [ex_zero; ex_zero]) [] F_INV = 0.
+Proof. vm_compute. repeat split; reflexivity. Qed.
+
+(* a known-finding expectation ("1E2x": junk after the exponent) is satisfiable through its required part; the value of
+   the literal is accepted only as the recorded finding (verdict 2 + KF_EXPJUNK); no value is rejected *)
+Example C15_known_finding :
+  acc (expected OParse RNE [49; 69; 50; 120]) [encode QNAN] 0 = 1 /\
+  acc (expected OParse RNE [49; 69; 50; 120]) [encode (Fin false 1 2)] 0 = 2 + KF_EXPJUNK /\
+  acc (expected OParse RNE [49; 69; 50; 120]) [] 0 = 0.
+Proof. vm_compute. repeat split; reflexivity. Qed.
+
+(* conversion to a 32-bit integer of an infinity: the indefinite integer with invalid is the accepted answer *)
+Example C15_to_int_inf : acc (expected (OToInt 32 true RNE false) RNE [ex_inf]) [2 ^ 31] F_INV = 1.
+Proof. vm_compute. reflexivity. Qed.
+
+(* the exception: frexp of a zero is unconstrained in the model, an empty output list is accepted by [acc] *)
+Example C15_frexp_zero_unconstrained :
+  unconstrained OFrexp [ex_zero] = true /\ acc (expected OFrexp RNE [ex_zero]) [] 0 = 1 /\
+  unconstrained OFrexp [ex_one] = false /\ unconstrained OQuantum [ex_qnan1] = true /\ unconstrained OQuantum [ex_inf] = false.
+Proof. vm_compute. repeat split; reflexivity. Qed.
+
+(* hypotheses of the determinism theorem are satisfiable, and its exclusions are needed *)
+Example C15_det_hyps :
+  det_op OAdd = true /\ defined_op OAdd [ex_qnan1; ex_one] = true /\
+  le1nan (map decode (nan_choice_operands OAdd [ex_qnan1; ex_one])) = true /\
+  expected OAdd RNE [ex_qnan1; ex_one] = Exact [([ex_qnan1], 0)].
+Proof. vm_compute. repeat split; reflexivity. Qed.
+Example C15_two_choices_nan : expected OAdd RNE [ex_qnan1; ex_qnan2] = Exact [([ex_qnan1], 0); ([ex_qnan2], 0)].
+Proof. vm_compute. reflexivity. Qed.
+Example C15_two_choices_minmax :
+  expected (OMinMax MinNum) RNE [ex_one; ex_ten_m1] = Exact [([ex_one], 0); ([ex_ten_m1], 0)].
+Proof. vm_compute. reflexivity. Qed.
+Example C15_two_choices_sum :
+  expected OSum RNE [ex_qnan1; ex_qnan2] = Exact [([ex_qnan1; ex_qnan1], 0); ([ex_qnan2; ex_qnan2], 0)].
 Proof. vm_compute. reflexivity. Qed.
